@@ -328,24 +328,41 @@ func c04Re(p string) *regexp.Regexp {
 }
 
 // c04RefHeaders: conjunction of the header matchers. In HTTP rules the name
-// "method" refers to the request method (exact), everything else to the header
-// map (exact value, or regex when flagged); an absent header never matches.
+// "method" refers to the request method, everything else to the header map
+// (exact value, or regex when flagged); an absent header never matches.
+//
+// Not decided by the statement (enumerated, either verdict admitted):
+//   - an HTTP "method" matcher flagged as regex: configutility.go documents the
+//     variable-backed keys as "exact match only", the config type allows the
+//     flag; undecided where the exact and the regex reading differ;
+//   - a header that is present with an EMPTY value against a matcher that would
+//     hold for the empty string: whether such a header counts as present.
 func c04RefHeaders(http bool, hs []c04Hdr, q c04Req) c04Tri {
 	res := c04Yes
 	for _, h := range hs {
 		if http && h.Name == "method" {
-			res = c04And(res, c04B(q.Method == h.Value))
+			exact := q.Method == h.Value
+			if h.Regex && c04Re(h.Value).MatchString(q.Method) != exact {
+				res = c04And(res, c04Unknown)
+				continue
+			}
+			res = c04And(res, c04B(exact))
 			continue
 		}
 		v, ok := q.Headers[h.Name]
-		switch {
-		case !ok:
+		if !ok {
 			res = c04No
-		case h.Regex:
-			res = c04And(res, c04B(c04Re(h.Value).MatchString(v)))
-		default:
-			res = c04And(res, c04B(v == h.Value))
+			continue
 		}
+		m := v == h.Value
+		if h.Regex {
+			m = c04Re(h.Value).MatchString(v)
+		}
+		if m && v == "" {
+			res = c04And(res, c04Unknown)
+			continue
+		}
+		res = c04And(res, c04B(m))
 	}
 	return res
 }
